@@ -1,6 +1,11 @@
 HOOK_COMMITS = []
-IMPLEMENTED = {"C09"}
+IMPLEMENTED = {"C05", "C09"}
 TABLE = {
+ "C05": {
+  "technique": "metamorphic / history-invariant property testing over generated event histories (proptest + exhaustive short histories)",
+  "text": "For each of the 14 stateful stream instantiations, all event-kind sequences up to length 5 and thousands of random histories up to 48 events are run on the real stream; after every event the no-stale-error invariant, get-purity (incl. a twin with a different get count), reset equivalence against a freshly constructed stream fed the suffix, and absent-deletion invariance are asserted exactly (bitwise modulo NaN/-0). Exploration: sampled histories, exhaustive only for short ones.",
+  "note": "Reset sets are taken from the rustdoc/source comments per stream; values are moderate finite f32; freeze is asserted only as far as the statement goes (windows after an absent/errored condition: purity only).",
+ },
  "C09": {
   "technique": "model-based property testing: exhaustive matching x operation enumeration + random op histories vs a partner-array model",
   "text": "Every matching on 2..6 terminals x every connect/disconnect is executed on real terminals and compared with a partner-array model (links inferred from coded state reads), plus thousands of random connect/disconnect/set histories whose state, command and combined reads are compared with the model after every step; panics are caught and reported. Exploration level: the finite transition space named by the quantifier is covered completely, values and longer histories by sampling.",
